@@ -94,6 +94,25 @@ def ident(v):
     return (3 if '@' in v else 2, v.encode())
 
 
+_PEM_CACHE = {}
+
+
+def pem_loads(kind, text):
+    """is `text` a PEM the trusted RSA primitive can load?  (the reading does not guess at PEM validity)"""
+    k = (kind, text)
+    if k not in _PEM_CACHE:
+        from cryptography.hazmat.primitives import serialization
+        try:
+            if kind == 'privkey':
+                serialization.load_pem_private_key(text.encode(), password=None)
+            else:
+                serialization.load_pem_public_key(text.encode())
+            _PEM_CACHE[k] = True
+        except Exception:
+            _PEM_CACHE[k] = False
+    return _PEM_CACHE[k]
+
+
 def auth(d, key_field):
     if not isinstance(d, dict):
         raise Undefined('auth')
@@ -108,7 +127,7 @@ def auth(d, key_field):
         if kf in d:
             if not isinstance(d[kf], str):
                 raise Undefined(kf)
-            if '-----BEGIN' not in d[kf]:
+            if not pem_loads(kf, d[kf]):
                 raise Invalid(kf)
         out[kf] = kf in d
     return out
